@@ -343,6 +343,85 @@ theorem xff_appended (prior : List Bytes) (host : Bytes) (h : (joinWith commaSpa
     keepXFF prior host = joinWith commaSpace prior ++ commaSpace ++ host := by
   simp [keepXFF, h]
 
+/-! ## what consumes the attributed address -/
+
+/-- the matchers' loop is "some configured range contains the address and accepts its zone" -/
+theorem matcher_loop_is_any (N : Net Addr Prefix) (a : Addr) (z : Bytes) (ranges : List (MRange Prefix)) :
+    matchCidrZones N a z ranges = ranges.any (fun r => N.contains r.pfx a && zoneOK r z) :=
+  matchCidrZones_eq_any N a z ranges
+
+/-- **the `client_ip` matcher sees the attributed address.** Whatever address `a` was attributed
+    (the var holds `a.String()`), the matcher matches iff a configured range without zone filter
+    contains `a` — it does not look at anything else of the request. -/
+theorem client_ip_matcher_sees_attributed_address (N : Net Addr Prefix) (hN : PrintsParseBack N)
+    (ranges : List (MRange Prefix)) (a : Addr) :
+    matchAddress N ranges (N.toString a) =
+      ranges.any (fun r => N.contains r.pfx a && decide (r.zone = [])) := by
+  unfold matchAddress
+  rw [parseIPZone_printed N hN a]
+  simp only [matchCidrZones_eq_any, zoneOK]
+  congr 1
+  funext r
+  by_cases hz : r.zone = []
+  · simp [hz]
+  · have : ¬ [] = r.zone := fun h => hz h.symm
+    simp [hz, this]
+
+/-- **the `remote_ip` matcher sees the peer.** For a `host:port` socket address it parses exactly the
+    address `determineTrustedProxy` parses (`peerAddr`), and matches iff a configured range contains
+    it and accepts the socket address's zone; headers are not an input. -/
+theorem remote_ip_matcher_sees_the_peer (N : Net Addr Prefix) (ranges : List (MRange Prefix)) (c : Conn)
+    (hp : Bytes × Bytes) (hr : splitHostPort c.remoteAddr = some hp) :
+    matchAddress N ranges c.remoteAddr =
+      match peerAddr N c with
+      | some a => ranges.any (fun r => N.contains r.pfx a && zoneOK r (ipAndZone hp.1).2)
+      | none => false := by
+  unfold matchAddress parseIPZone hostOrAll peerAddr remoteHost
+  simp only [hr, ipAndZone_fst]
+  cases N.parseAddr (cutZone hp.1) with
+  | none => rfl
+  | some a => simp [matchCidrZones_eq_any]
+
+/-- the var holds "" or what `Addr.String` printed for some address -/
+theorem client_ip_is_empty_or_printed (N : Net Addr Prefix) (cfg : Cfg Prefix) (c : Conn)
+    (w : List (Bytes × Bytes)) :
+    (serve N cfg c w).clientIP = [] ∨ ∃ a, (serve N cfg c w).clientIP = N.toString a := by
+  rcases client_ip_is_peer_or_header_element N cfg c w with h | ⟨_, _, a, _, _, _, h⟩
+  · cases hp : peerAddr N c with
+    | none => left; rw [h, hp]; rfl
+    | some ip => right; exact ⟨ip, by rw [h, hp]; rfl⟩
+  · exact Or.inr ⟨a, h⟩
+
+/-- **every consumer reads the attributed address.** The `{http.vars.client_ip}` placeholder and the
+    access log's `client_ip` field are the var; the PROXY-protocol address sent to the upstream is the
+    var's address (invalid exactly when the var is empty). -/
+theorem consumers_read_the_attributed_address (N : Net Addr Prefix) (hN : PrintsParseBack N)
+    (cfg : Cfg Prefix) (ranges : List (MRange Prefix)) (c : Conn) (w : List (Bytes × Bytes)) :
+    (serveConsumers N cfg ranges c w).placeholder = (serve N cfg c w).clientIP ∧
+    (serveConsumers N cfg ranges c w).logField = (serve N cfg c w).clientIP ∧
+    (serveConsumers N cfg ranges c w).proxyProto =
+      (if (serve N cfg c w).clientIP = [] then none else some (serve N cfg c w).clientIP) := by
+  refine ⟨rfl, rfl, ?_⟩
+  unfold serveConsumers consumers
+  simp only
+  rcases client_ip_is_empty_or_printed N cfg c w with h | ⟨a, h⟩
+  · rw [h, hN.emptyInvalid]; rfl
+  · rw [h, hN.back a]
+    by_cases he : N.toString a = []
+    · have := hN.back a
+      rw [he, hN.emptyInvalid] at this
+      cases this
+    · simp [he]
+
+/-- **consumers of an untrusted peer's request ignore its headers**: placeholder, log field, both
+    matchers and the PROXY-protocol address are the same for any two header lists. -/
+theorem untrusted_consumers_noninterference (N : Net Addr Prefix) (cfg : Cfg Prefix)
+    (ranges : List (MRange Prefix)) (c : Conn) (w w' : List (Bytes × Bytes))
+    (hs : serverTrusts N cfg c = false) :
+    serveConsumers N cfg ranges c w = serveConsumers N cfg ranges c w' := by
+  unfold serveConsumers
+  rw [untrusted_client_ip N cfg c w hs, untrusted_client_ip N cfg c w' hs]
+
 /-! ## retried attempts -/
 
 /-- **every attempt sends the same forwarding fields.** However many upstream round trips fail and are
@@ -452,6 +531,17 @@ example : serveAttempts toyNet witCfg witConn [] .none 1 =
     some (List.replicate 2 ⟨some none, some (some [b!"http"]), some (some [b!"a"])⟩) ∧
   serveAttempts toyNet witCfg witConn [] .setOther 1 =
     some (List.replicate 2 ⟨none, some (some [b!"http"]), some (some [b!"a"])⟩) := by decide
+-- consumers: toyNet prints what it parsed (PrintsParseBack is inhabited by it on its seven addresses);
+-- a zoned range only matches the zoned socket address, never the (zone-less) attributed address
+def exRanges : List (MRange Bytes) := [⟨b!"10.", []⟩, ⟨b!"fe80", b!"eth0"⟩]
+example : serveConsumers toyNet exCfg exRanges exUntrusted exHeaders =
+    ⟨b!"fe80::1", b!"fe80::1", false, true, some b!"fe80::1"⟩ := by decide
+example : serveConsumers toyNet exCfg exRanges exTrusted exHeaders =
+    ⟨b!"9.9.9.9", b!"9.9.9.9", false, true, some b!"9.9.9.9"⟩ := by decide
+example : splitHostPort (toyNet.toString b!"fe80::1") = none ∧ cutZone (toyNet.toString b!"10.0.0.1") = b!"10.0.0.1" ∧
+    toyNet.parseAddr (toyNet.toString b!"::1") = some b!"::1" ∧ toyNet.parseAddr [] = none := by decide
+example : matchCidrZones toyNet b!"fe80::1" b!"eth0" exRanges = true ∧
+    matchCidrZones toyNet b!"fe80::1" b!"eth1" exRanges = false := by decide
 -- elements_are_per_value
 example : elements [b!"a,b", b!"", b!"c"] = [b!"a", b!"b", b!"", b!"c"] := by decide
 -- trimSpace_never_runs_out_of_fuel: NBSP, EM SPACE and ASCII blanks around an address
